@@ -181,3 +181,26 @@ def rewitness(snap: Snapshot, wits, frozen=(), first_new=0):
         seen.update(wires)
         i += 1
     return w
+
+
+# ---------------------------------------------------------------- real prover / verifier as second opinion
+def second_opinion(ck, jobs, expect, progs, prog_of, name, pick, limit=8, pp_log=13):
+    """For adversarial assignments the property requires to be unsatisfiable: push them through the REAL
+    Prover::prove (honest layout compiled from the script, witness overrides via setw) and Verifier::verify.
+    Returns [(job name, overrides)] that were ACCEPTED -- a concrete proof of a false statement."""
+    from . import protocol
+    cases = []
+    for nm, snap, w2 in jobs:
+        if expect.get(nm) is not False or not pick(nm): continue
+        if len(cases) >= limit: break
+        over = {} if w2 is None else {i: v for i, v in enumerate(w2) if i < len(snap.wits) and v != snap.wits[i]}
+        cases.append((nm, progs[prog_of(nm)], over))
+    if not cases: return []
+    verd = protocol.real_prover_verdicts(cases, name, pp_log=pp_log)
+    acc = []
+    for nm, body, over in cases:
+        ck.count(("rp", nm), kind="real prover on adversarial assignment")
+        v = verd.get(nm, "ERROR:missing")
+        if v == "ACCEPTED": acc.append((nm, over))
+        elif v.startswith("ERROR"): raise BuildError(f"real-prover second opinion failed on {nm}: {v}")
+    return acc
